@@ -13,6 +13,9 @@ PROP = "C16"
 STEMS = ["g", "g_1", "robot_1_w2_l2", "a1_b2_c3", "coin_game_2_copy", "py_warmup"]
 STYLES = ["repr", "generator", "expressions"]
 _CACHE = {}
+# legal dictionary keys that a report writer built on string formatting may mangle
+ODD_NAMES = ["G_{2}", "{n_states}_chain", "reach{goal}", "{0}", "{}", "100%", "%s and %d", "it's", 'say "hi"', "a#b", "2nd_game", "class", "back\\slash",
+             "two  spaces ", "\u00fcn\u00ef", "a:b: c", "$HOME", "name_no_prune_x", "x" * 300]
 
 
 def games():
@@ -23,7 +26,8 @@ def games():
 
 def check_file(names, stem, style):
     """returns list of findings for one input file"""
-    d = {n: copy.deepcopy(games()[n]) for n in names}
+    # an entry "g=>odd name" puts the alphabet game g into the file under the name after "=>"
+    d = {(n.split("=>", 1)[1] if "=>" in n else n): copy.deepcopy(games()[n.split("=>", 1)[0]]) for n in names}
     text = B.render(d, style)
     tmp = tempfile.mkdtemp(prefix="crverif_c16_")
     cwd = os.getcwd()
@@ -31,6 +35,9 @@ def check_file(names, stem, style):
     try:
         os.mkdir(os.path.join(tmp, "inputs"))
         os.mkdir(os.path.join(tmp, "outputs"))
+        # environment: a longer report of the same name left behind by an earlier run; the new report must replace it entirely
+        with open(os.path.join(tmp, "outputs", stem + ".txt"), "w", encoding="utf-8") as f:
+            f.write(B.STALE_REPORT)
         path = os.path.join("inputs", stem + ".py")
         with open(os.path.join(tmp, path), "w", encoding="utf-8") as f:
             f.write(text)
@@ -96,7 +103,7 @@ RULE = ("input files = every ordered selection of 0..k games from the 7-game bat
         "empty strategy lists, a 42-state board game for long float vectors) x 6 file stems (underscores, digits, stems ending in 'p'/'y') x 3 textual renderings of the same dictionary "
         "(plain repr, pretty-printed with a comment preamble, arithmetic expressions instead of literals); each is run through the real "
         "main() -f inputs/<stem>.py -s in a scratch directory and the report is parsed by an independent parser; every worker process handles its files one after the other under the same relative path names (inputs/<stem>.py rewritten with different games), so state kept between files shows as a difference; non-trivial = the file "
-        "contains a failing game, a game with None/empty strategy entries or the 42-state game")
+        "contains a failing game, a game with None/empty strategy entries or the 42-state game; plus files whose games carry odd names (braces, percent signs, quotes, '#', backslash, leading digit, keyword, 300 characters)")
 ASSUME = ["report layout: blocks introduced by a line of 160 '=', 14 lines per block, label padded to 24 characters then ': '",
           "expected values come from calling run_games on a deep copy of the same dictionary in the same process (floats round-trip through repr)"]
 
@@ -110,10 +117,14 @@ def run(ctx):
             combos = itertools.product(STEMS, STYLES)
             for stem, style in combos:
                 files.append((p, stem, style))
+    for odd in ODD_NAMES:
+        for style in STYLES:
+            files.append((("g=>" + odd,), "g", style))
+            files.append((("x_no_prune=>" + odd, "g=>" + odd + "_2"), "g_1", style))
     chunks = [files[i::ctx.jobs * 2] for i in range(ctx.jobs * 2)]
     tot = par.run_shards(work, [c for c in chunks if c], ctx.jobs)
     if tot["files"] != len(files) and not tot.get("skipped_shards"):
-        raise par.HarnessError("C16: %d of %d files" % (tot["files"], len(files)))
+        raise par.GuardError("C16: %d of %d files" % (tot["files"], len(files)))
     cov = {"states": tot["files"], "transitions": tot["blocks"], "traces_validated_against_impl": tot["files"],
            "evaluations": tot["files"], "distinct_nontrivial": tot["nontrivial"], "report_blocks_compared": tot["blocks"],
            "stems": STEMS, "renderings": STYLES, "max_games_per_file": kmax, "rule": RULE, "exhaustive": True,
